@@ -519,3 +519,19 @@ def run(ctx):
             continue
         for oname, what in compare(out0, out1, c, 1e-6):
             ctx.violation('scale/%s/%s' % (cls, oname), '%s, %s: %s' % (cls, oname, what), rep)
+
+    # ---------------- arma_estimate (the model of C15, which the ma / arma_estimate / parma theorems are about) at scaled inputs:
+    # c*x is built inside Coq from the low-bit data, the implementation is called on the numerically scaled array (dyadic c: exact)
+    from props import _c03_arma_corr as AC
+
+    def scaled(rng_, x, cplx):
+        c = (complex(rng_.integers(-6, 7), rng_.integers(-6, 7)) / 4.0) if cplx else float(rng_.integers(-12, 13)) / 4.0
+        if c == 0:
+            c = 1.5
+        if rng_.integers(0, 4) == 0:
+            c = c * 2.0 ** int(rng_.choice([-10, 12]))
+        return c * x, '(@vscale _ ops %s %s)' % (cz(c), czl(x)), {'c': str(c)}
+    cases, meta = AC.gen(ctx, ctx.q(8, 80), scaled, 'scaled')
+    for i in ctx.coq_cases('c03_arma_scaled', AC.pre(), cases, shard=4,
+                           descr='arma_estimate at c*x (every outcome code, AR / MA / rho, oracle residual exactly zero) vs Model.ArmaEst.arma_estimate at QcC'):
+        ctx.corr_disagreement('arma_estimate', i, meta[i])
